@@ -21,6 +21,7 @@ import dataclasses
 import functools as ft
 import inspect
 import itertools as it
+import keyword
 import sys
 import warnings
 import weakref
@@ -672,10 +673,18 @@ def _make_fn_with_signature(
     else:
         retstr = f"-> {name_to_annotation['return']}"
 
-    fnstr = f"def {name}({argstr}){retstr}:\n    {outstr}"
+    if name.isidentifier() and not keyword.iskeyword(name):
+        def_name = name
+    else:
+        # E.g. lambdas, whose name is `<lambda>`, or callables without a `__name__`.
+        del scope[name]
+        def_name = _gensym(frozenset(scope.keys()) | param_names, prefix="fn")
+        scope[def_name] = None
+    fnstr = f"def {def_name}({argstr}){retstr}:\n    {outstr}"
     exec(fnstr, scope)
-    fn = scope[name]
-    del scope[name]  # Avoids introducing a reference cycle.
+    fn = scope[def_name]
+    del scope[def_name]  # Avoids introducing a reference cycle.
+    fn.__name__ = name
     fn.__module__ = module
     fn.__qualname__ = qualname
     assert fn is not None
